@@ -161,9 +161,11 @@ fn fresh(e: &Env) {
     e.cost_estimate().budget().reset_limits(400_000_000, 400_000_000);
 }
 
-fn num<T, E1, E2>(r: Result<Result<T, E1>, E2>) -> Option<T> {
-    match r {
-        Ok(Ok(v)) => Some(v),
+/// Result of a getter call made by `f`: `None` when the call was refused, or when the host escalated
+/// an error (e.g. an exhausted budget) to a panic -- a panic inside the code under test is data.
+fn num<T, E1, E2>(f: impl FnOnce() -> Result<Result<T, E1>, E2>) -> Option<T> {
+    match std::panic::catch_unwind(std::panic::AssertUnwindSafe(f)) {
+        Ok(Ok(Ok(v))) => Some(v),
         _ => None,
     }
 }
@@ -213,19 +215,21 @@ impl Sys {
             let ad = self.names.get(a);
             fresh(e);
             let b: i128 = match self.fl {
-                Fl::Example => num(fvotes::ExampleContractClient::new(e, &self.c).try_balance(&ad)).unwrap_or(-1),
-                Fl::FtBurn => num(ftburn::FtVotesBurnClient::new(e, &self.c).try_balance(&ad)).unwrap_or(-1),
-                Fl::Nft => num(nftv::NftVotesClient::new(e, &self.c).try_balance(&ad)).map(|v| v as i128).unwrap_or(-1),
+                Fl::Example => num(|| fvotes::ExampleContractClient::new(e, &self.c).try_balance(&ad)).unwrap_or(-1),
+                Fl::FtBurn => num(|| ftburn::FtVotesBurnClient::new(e, &self.c).try_balance(&ad)).unwrap_or(-1),
+                Fl::Nft => num(|| nftv::NftVotesClient::new(e, &self.c).try_balance(&ad)).map(|v| v as i128).unwrap_or(-1),
             };
             bal.insert(a.clone(), jint(b));
             // the voting units have no contract entry point (the `Votes` trait does not expose them):
             // read through the library's public read-only function in the contract's frame
             fresh(e);
-            let u = e.as_contract(&self.c, || stellar_governance::votes::get_voting_units(e, &ad));
-            units.insert(a.clone(), jint(u as i128));
+            let u = std::panic::catch_unwind(std::panic::AssertUnwindSafe(|| {
+                e.as_contract(&self.c, || stellar_governance::votes::get_voting_units(e, &ad))
+            }));
+            units.insert(a.clone(), jint(u.map(|v| v as i128).unwrap_or(-1)));
             with_client!(self, cl => {
-                votes.insert(a.clone(), jint(num(cl.try_get_votes(&ad)).map(|v| v as i128).unwrap_or(-1)));
-                let d = match num(cl.try_get_delegate(&ad)) {
+                votes.insert(a.clone(), jint(num(|| cl.try_get_votes(&ad)).map(|v| v as i128).unwrap_or(-1)));
+                let d = match num(|| cl.try_get_delegate(&ad)) {
                     Some(d) => self.names.opt_name(&d),
                     None => "?".to_string(),
                 };
@@ -234,21 +238,21 @@ impl Sys {
         }
         fresh(e);
         let supply: i128 = match self.fl {
-            Fl::Example => num(fvotes::ExampleContractClient::new(e, &self.c).try_total_supply()).unwrap_or(-1),
-            Fl::FtBurn => num(ftburn::FtVotesBurnClient::new(e, &self.c).try_total_supply()).unwrap_or(-1),
+            Fl::Example => num(|| fvotes::ExampleContractClient::new(e, &self.c).try_total_supply()).unwrap_or(-1),
+            Fl::FtBurn => num(|| ftburn::FtVotesBurnClient::new(e, &self.c).try_total_supply()).unwrap_or(-1),
             Fl::Nft => -1, // the base NFT has no total supply getter
         };
-        let total = with_client!(self, cl => num(cl.try_get_total_supply()).map(|v| v as i128).unwrap_or(-1));
+        let total = with_client!(self, cl => num(|| cl.try_get_total_supply()).map(|v| v as i128).unwrap_or(-1));
         // answers about the past (-1: refused)
         let mut past = Vec::new();
         for l in Sys::past_ledgers(now) {
             let mut v = JMap::new();
             for a in &self.accts {
                 let ad = self.names.get(a);
-                let x = with_client!(self, cl => num(cl.try_get_votes_at_checkpoint(&ad, &l)).map(|v| v as i128).unwrap_or(-1));
+                let x = with_client!(self, cl => num(|| cl.try_get_votes_at_checkpoint(&ad, &l)).map(|v| v as i128).unwrap_or(-1));
                 v.insert(a.clone(), jint(x));
             }
-            let t = with_client!(self, cl => num(cl.try_get_total_supply_at_checkpoint(&l)).map(|v| v as i128).unwrap_or(-1));
+            let t = with_client!(self, cl => num(|| cl.try_get_total_supply_at_checkpoint(&l)).map(|v| v as i128).unwrap_or(-1));
             past.push(json!({"l": l, "v": v, "t": jint(t)}));
         }
         // the current and future ledgers must be refused
@@ -256,10 +260,10 @@ impl Sys {
             let mut all_refused = true;
             for a in &self.accts {
                 let ad = self.names.get(a);
-                let answered = with_client!(self, cl => num(cl.try_get_votes_at_checkpoint(&ad, &l)).is_some());
+                let answered = with_client!(self, cl => num(|| cl.try_get_votes_at_checkpoint(&ad, &l)).is_some());
                 all_refused &= !answered;
             }
-            let t_answered = with_client!(self, cl => num(cl.try_get_total_supply_at_checkpoint(&l)).is_some());
+            let t_answered = with_client!(self, cl => num(|| cl.try_get_total_supply_at_checkpoint(&l)).is_some());
             (if all_refused { "fail" } else { "ok" }, if t_answered { "ok" } else { "fail" })
         };
         let mut fut = Vec::new();
@@ -286,11 +290,24 @@ impl Sys {
         let who = auth_addrs(op, &self.names);
         let kind = s(op, "op");
         let amt = n(op, "amt") as i128;
-        let addr = |k: &str| -> Address { self.names.get(s(op, k)) };
+        let lookup = |k: &str| -> Option<Address> {
+            let v = s(op, k);
+            if v == "none" { None } else { Some(self.names.get(v)) }
+        };
+        let (a_from, a_to, a_by) = (lookup("from"), lookup("to"), lookup("by"));
+        let addr = |k: &str| -> Address {
+            match k {
+                "from" => a_from.clone(),
+                "to" => a_to.clone(),
+                _ => a_by.clone(),
+            }
+            .unwrap_or_else(|| panic!("op field {k} names nobody in {op}"))
+        };
         let c = self.c.clone();
         let mut tok: i64 = -1;
         fresh(e);
-        let (res, code): (&'static str, i64) = match (kind, self.fl) {
+        // a host panic escaping a `try_` call (escalated internal error) is a refused call
+        let outcome = std::panic::catch_unwind(std::panic::AssertUnwindSafe(|| -> (&'static str, i64) { match (kind, self.fl) {
             // ---- mint ---------------------------------------------------------------------------
             ("mint", Fl::Example) => {
                 let to = addr("to");
@@ -422,8 +439,12 @@ impl Sys {
                 }
                 r
             }
-            (k, _) => panic!("op {k}"),
-        };
+            (k, _) => {
+                eprintln!("unknown op {k}");
+                std::process::exit(2)
+            }
+        } }));
+        let (res, code) = outcome.unwrap_or(("fail", -4));
         json!({"op": op, "now": now, "res": res, "err": code, "tok": tok, "obs": self.obs()})
     }
 
@@ -465,6 +486,15 @@ fn op_json(kind: &str, from: &str, to: &str, by: &str, amt: i64, auth: &[String]
 }
 
 fn main() {
+    // Panics escalated by the host inside `try_` calls are caught and recorded as refused calls; keep
+    // their reports short (a panic of the harness itself still ends the process with its message).
+    std::panic::set_hook(Box::new(|info| {
+        static SHOWN: std::sync::atomic::AtomicUsize = std::sync::atomic::AtomicUsize::new(0);
+        if SHOWN.fetch_add(1, std::sync::atomic::Ordering::Relaxed) < 5 {
+            let msg = info.to_string();
+            eprintln!("panic: {}", msg.lines().take(3).collect::<Vec<_>>().join(" | "));
+        }
+    }));
     match cli() {
         Mode::Exec { input, output } => {
             let mut t = Trace::create(&output);
